@@ -916,13 +916,16 @@ def tasks_for(thorough, rng):
                             add("k3", sc, ["R", "O"])
                             if src1 != "D" and src2 != "D":
                                 add("k3", sc, ["R", "O"], defaults=False)
-    # ---- (3) depth 2: all scenarios with <= 2 atoms (3 thorough)
+    # ---- (3) depth 2: all scenarios with <= 2 atoms (thorough: <= 3 on the basic depth-2 tree)
     n2 = 3 if thorough else 2
     for tid in ("d2", "rep") + (("d2s",) if thorough else ()):
-        for sc in combos(T[tid], n2, unknown=(tid == "d2")):
-            add(tid, sc, ["RR", "OO", "RO", "OR"] if thorough or len(sc) <= 1 else ["RR", "OO"], all_modes=(tid == "d2" and len(sc) <= 1))
+        for sc in combos(T[tid], n2 if tid == "d2" else 2, unknown=(tid == "d2")):
+            if tid == "rep" and not thorough and len(sc) == 2:
+                tasks.append((tid, tuple(sc), ("RR", "OO")[len(tasks) % 2], True, True))  # quick: one mode for the repeated-names tree
+                continue
+            add(tid, sc, ["RR", "OO", "RO", "OR"] if len(sc) <= 1 or (thorough and len(sc) <= 2) else ["RR", "OO"], all_modes=(tid == "d2" and len(sc) <= 1))
             kinds = {src_kind(s) for s, _ in sc}
-            if tid == "d2" and sc and not kinds & {"D", "Dc"} and (thorough or kinds & {"B", "C", "Cs"}):
+            if tid == "d2" and sc and len(sc) <= 2 and not kinds & {"D", "Dc"} and (thorough or kinds & {"B", "C", "Cs"}):
                 add(tid, sc, ["RR", "OO", "RO", "OR"] if thorough else ["RR", "OO"], defaults=False)
     # ---- (4) every depth-1 scenario replayed at inner positions of deeper trees
     k2_small = [sc for sc in k2 if 1 <= len(sc) <= 3 and not any(a[0] == "n" and a[2] == UNKNOWN for s, a in sc)]
@@ -936,8 +939,8 @@ def tasks_for(thorough, rng):
                 if own and not any(s == "D" for s, _ in sc1):
                     continue
                 i += 1
-                if not thorough and len(sc1) == 3 and i % 4 != 0:
-                    continue  # quick: every fourth 3-atom lift, deterministic
+                if not thorough and len(sc1) == 3 and i % 5 != 0:
+                    continue  # quick: every fifth 3-atom lift, deterministic
                 # how the outer chain is selected: named on the command line / in the config / left implicit
                 for how in (("A", "B", "I") if thorough or len(sc1) == 1 else ("ABI"[i % 3],)):
                     sc = lift(T[tid], sc1, target, how, own)
@@ -950,7 +953,7 @@ def tasks_for(thorough, rng):
         for tid in ("d3", "d2s", "k4"):
             u = universe(T[tid], unknown=False)
             done = 0
-            while done < 6000:
+            while done < 4000:
                 sc = tuple(sorted(set(rng.sample(u, rng.randint(3, 6)))))
                 if not valid(T[tid], sc):
                     continue
@@ -1037,8 +1040,8 @@ def main():
         h.check(stats["accept"] > 0 and stats["reject"] > 0, "c17:vacuity", "accepted and rejected inputs must both occur", stats)
     sys.exit(h.finish(exhaustive=True, bound=(
         "trees: 1-3 (thorough 4) subcommands at depth 1, depth 2 (incl. equal names in two branches and repeated names a.a.a), depth 3 via lifted "
-        "scenarios (thorough: + random); scenarios: all with <= %d atoms on root[a,b], <= %d on depth-2 trees, <= 2 (thorough 3) on 1/3/4 subcommands, every <=3-atom "
-        "depth-1 scenario lifted to inner nodes of depth-2/3 trees (quick: every fourth 3-atom one, one of three outer-selection styles); required/optional per level; defaults on/off" % (n1, n2))))
+        "scenarios (thorough: + random); scenarios: all with <= %d atoms on root[a,b], <= %d on the basic depth-2 tree (<= 2 on the other depth-2 trees), <= 2 (thorough 3) on 1/3/4 subcommands, every <=3-atom "
+        "depth-1 scenario lifted to inner nodes of depth-2/3 trees (quick: every fifth 3-atom one, one of three outer-selection styles); required/optional per level; defaults on/off" % (n1, n2))))
 
 
 if __name__ == "__main__":
